@@ -76,6 +76,17 @@ pub fn check_bytes(bytes: &[u8], u: &Universe, key: u64, st: &mut Stats) -> Chec
             f
         })?;
         st.evaluations += scratch.evaluations;
+        // all constructors of the mapper agree (From<&str>, From<(&str, bool)>, new_with_param_mapping(false))
+        for (v, with_params) in mapper_variants(bytes)?.iter().skip(2) {
+            let reference: &dyn Retracer = if *with_params { &m_params } else { &m_plain };
+            let k = Kinds { params: *with_params, typed: false, ..Kinds::all() };
+            let mut scratch = Stats::new();
+            compare_retracers(reference, v, u, &extra, k, case_hash, &mut scratch).map_err(|mut f| {
+                f.sig = format!("constructor-{}", f.sig);
+                f
+            })?;
+            st.evaluations += scratch.evaluations;
+        }
         Ok(())
     })
 }
